@@ -574,6 +574,7 @@ func init() {
 			{Name: "chunk", N: core.Const(48, 320), Run: runChunk},
 			{Name: "reader", N: core.Const(192, 1920), Run: runReader, Race: true, NRace: core.Const(48, 192)},
 			{Name: "e2e", N: core.Const(16, 96), Run: runE2E},
+			{Name: "bigfile", N: core.Const(2, 4), Run: runBig, Serial: false, TimeoutS: 1800},
 		},
 		Cmds:          []string{"obiconvert"},
 		MinNontrivial: 200,
